@@ -114,3 +114,17 @@ Lemma client_told_incompatible :
   client_connect RConnectReply2Incompatible = KIncompatible /\
   forall v, client_connect1 (RConnectReplyIncompatible v) = KIncompatible.
 Proof. split; reflexivity. Qed.
+
+(* "otherwise the client is told the version is incompatible": whenever the first message is a
+   connect message and select refuses, the reply is the incompatible-version reply of the dialect
+   the client spoke (legacy: with the number 14) *)
+Lemma accept_incompatible h c2 ma mi :
+  requested h = Some (c2, (ma, mi)) -> select ma mi c2 = None ->
+  accept h = (AIncompatible (ma, mi),
+              if c2 then RConnectReply2Incompatible else RConnectReplyIncompatible 14).
+Proof. intros Hr Hs. unfold accept. rewrite Hr, Hs. reflexivity. Qed.
+
+Lemma accept_accepted h c2 ma mi v :
+  requested h = Some (c2, (ma, mi)) -> select ma mi c2 = Some v ->
+  accept h = (AAccepted c2 v, if c2 then RConnectReply2Ok (snd v) else RConnectReplyOk).
+Proof. intros Hr Hs. unfold accept. rewrite Hr, Hs. reflexivity. Qed.
